@@ -49,14 +49,28 @@ def run(chk):
         raise AnalysisError("read_cvrs: loop over Sessions not found")
     L = loops[0]
     c = norm(L.target)
+    rets_ = [r for r in walk_local(fn) if isinstance(r, ast.Return) and isinstance(r.value, ast.Name)]
+    OUT = rets_[0].value.id if rets_ else "cvr_list"
+    ctor = [x.args[0] for x in walk_local(L) if isinstance(x, ast.Call) and norm(x.func) == f"{OUT}.append" and x.args
+            and isinstance(x.args[0], ast.Call) and norm(x.args[0].func) == "CVR"]
+    kw0 = {k.arg: k.value for k in ctor[0].keywords} if ctor else {}
+    VOTES = kw0["votes"].id if isinstance(kw0.get("votes"), ast.Name) else "votes"
+    # the record id: the local that is initialised from the session's RecordId
+    RID = next((norm(s0.targets[0]) for s0 in L.body if isinstance(s0, ast.Assign) and isinstance(s0.targets[0], ast.Name)
+                and norm(s0.value) in (f"{c}['RecordId']",)), "record_id")
+    cst0 = [(t, v, s0) for t, v, s0 in stores(L) if isinstance(t, ast.Subscript) and norm(t.value) == VOTES and isinstance(v, ast.Name)]
+    CV = cst0[0][1].id if len(cst0) == 1 else "contest_votes"
     # ---- R1
-    ok_iter = norm(L.iter) in ('cvr_json["Sessions"]', "cvr_json['Sessions']")
+    # the loop ranges over the "Sessions" of the parsed JSON document (whatever the local holding it is called)
+    ok_iter = isinstance(L.iter, ast.Subscript) and isinstance(L.iter.value, ast.Name) and isinstance(L.iter.slice, ast.Constant) \
+        and L.iter.slice.value == "Sessions" and any(
+            isinstance(s0, ast.Assign) and norm(s0.targets[0]) == L.iter.value.id and norm(s0.value).startswith("json.load(") for s0 in ast.walk(fn))
     ps = paths(L.body)
     bad = []
     n_app = n_skip = 0
     for p in ps:
         apps = [s for s in (e[1] for e in p.events if e[0] == "stmt") if isinstance(s, ast.Expr) and isinstance(s.value, ast.Call)
-                and norm(s.value.func) == "cvr_list.append"]
+                and norm(s.value.func) == f"{OUT}.append"]
         if p.exit == "continue":
             n_skip += 1
             if apps:
@@ -69,7 +83,7 @@ def run(chk):
         else:
             bad.append(f"path leaves the loop body by {p.exit}")
     nested_apps = [x for l2 in walk_local(L) if isinstance(l2, (ast.For, ast.While)) and l2 is not L for x in ast.walk(l2)
-                   if isinstance(x, ast.Call) and norm(x.func) == "cvr_list.append"]
+                   if isinstance(x, ast.Call) and norm(x.func) == f"{OUT}.append"]
     chk.ob("C19.R1", where, "one-record-per-session", ok_iter and not bad and not nested_apps and n_app >= 1,
            "every path through the session loop either skips the session before any append or appends exactly one record", node=L,
            paths=len(ps), completing=n_app, skipping=n_skip, problems=bad)
@@ -85,19 +99,20 @@ def run(chk):
            "a session is skipped iff include_groups is non-empty and the session's counting group is not in it, before any effect",
            node=guards[0] if guards else L)
     sorts = [x for x in walk_local(fn) if isinstance(x, ast.Call) and (norm(x.func) in ("sorted", "reversed") or
-             (isinstance(x.func, ast.Attribute) and x.func.attr in ("sort", "reverse", "insert") and norm(x.func.value) == "cvr_list"))]
+             (isinstance(x.func, ast.Attribute) and x.func.attr in ("sort", "reverse", "insert") and norm(x.func.value) == OUT))]
     rets = [r for r in walk_local(fn) if isinstance(r, ast.Return)]
-    chk.ob("C19.R1", where, "file-order", not sorts and len(rets) == 1 and norm(rets[0].value) == "cvr_list",
+    chk.ob("C19.R1", where, "file-order", not sorts and len(rets) == 1 and norm(rets[0].value) == OUT and any(
+               isinstance(s0, ast.Assign) and norm(s0.targets[0]) == OUT and norm(s0.value) == "[]" for s0 in walk_local(fn)),
            "records are appended in file order and the list is returned as built (no sort, reverse or insert)", node=fn,
            reordering=[norm(x)[:60] for x in sorts])
     # ---- R2
-    app = [x for x in walk_local(L) if isinstance(x, ast.Call) and norm(x.func) == "cvr_list.append"]
+    app = [x for x in walk_local(L) if isinstance(x, ast.Call) and norm(x.func) == f"{OUT}.append"]
     ok_id = ok_tp = ok_pool = ok_votes = False
     detail = {}
     if app and isinstance(app[0].args[0], ast.Call) and norm(app[0].args[0].func) == "CVR":
         kw = {k.arg: k.value for k in app[0].args[0].keywords}
         tx = Tx()
-        tx.env["record_id"] = E(S("record_id"))
+        tx.env[RID] = E(S("record_id"))
         if "id" in kw:
             got = tx.expr(kw["id"])
             want = tx.expr(ast.parse(f'str({c}["TabulatorId"]) + "-" + str({c}["BatchId"]) + "-" + str(record_id)', mode="eval").body)
@@ -111,15 +126,15 @@ def run(chk):
             got = tx.cond(kw["pool"])
             want = spec.cond_term(f'{c}["CountingGroupId"] in pool_groups')
             ok_pool = aud.cond_equiv(got, want)[0]
-        ok_votes = "votes" in kw and norm(kw["votes"]) == "votes"
-    rid = [s for s in L.body if isinstance(s, ast.Assign) and norm(s.targets[0]) == "record_id"]
+        ok_votes = "votes" in kw and norm(kw["votes"]) == VOTES
+    rid = [s for s in L.body if isinstance(s, ast.Assign) and norm(s.targets[0]) == RID]
     ok_rid = len(rid) == 1 and norm(rid[0].value) in (f'{c}["RecordId"]', f"{c}['RecordId']")
     chk.ob("C19.R2", where, "identifier", ok_id and ok_rid,
            "id == TabulatorId-BatchId-RecordId (record id taken from the session, de-obfuscated from the image mask only when it is 'X')",
            node=app[0] if app else L, **detail)
     chk.ob("C19.R2", where, "tally-pool", ok_tp, "tally_pool == TabulatorId-BatchId", node=app[0] if app else L)
     chk.ob("C19.R2", where, "pooled-flag", ok_pool, "pool == (the session's CountingGroupId is in pool_groups)", node=app[0] if app else L)
-    vinit = [s for s in L.body if isinstance(s, ast.Assign) and norm(s.targets[0]) == "votes"]
+    vinit = [s for s in L.body if isinstance(s, ast.Assign) and norm(s.targets[0]) == VOTES]
     chk.ob("C19.R2", where, "fresh-votes-per-session", ok_votes and len(vinit) == 1 and norm(vinit[0].value) == "{}",
            "each record gets its own vote dict, created afresh for the session", node=vinit[0] if vinit else L)
     # ---- R3
@@ -202,9 +217,10 @@ def run(chk):
            "on the abstract domain {absent, falsy, a, b} the specified update is commutative and associative (3-element permutations)",
            strength="P")
     # per-contest store
-    cst = [(t, v, s) for t, v, s in stores(L) if isinstance(t, ast.Subscript) and norm(t.value) == "votes"]
-    ok = len(cst) == 1 and norm(cst[0][0].slice) in ('str(con["Id"])', "str(con['Id'])") and norm(cst[0][1]) == "contest_votes"
-    init = [s for s in walk_local(L) if isinstance(s, ast.Assign) and norm(s.targets[0]) == "contest_votes"]
+    cst = [(t, v, s) for t, v, s in stores(L) if isinstance(t, ast.Subscript) and norm(t.value) == VOTES]
+    conv = norm(parent(cst[0][2]).target) if cst and isinstance(parent(cst[0][2]), ast.For) else "con"
+    ok = len(cst) == 1 and norm(cst[0][0].slice) in (f"str({conv}['Id'])",) and norm(cst[0][1]) == CV
+    init = [s for s in walk_local(L) if isinstance(s, ast.Assign) and norm(s.targets[0]) == CV]
     ok = ok and len(init) == 1 and norm(init[0].value) == "{}" and isinstance(parent(init[0]), ast.For) and parent(init[0]) is parent(cst[0][2])
     chk.ob("C19.R4", where, "per-contest-dict", ok,
            "each contest of a version gets a fresh candidate dict stored under the contest id (a later version replaces the contest's data)",
